@@ -269,6 +269,7 @@ func (a *aclList) AddRawRecord(rawRec *consensusproto.RawRecordWithId) (err erro
 	if err = copyState.ApplyRecord(record); err != nil {
 		return
 	}
+	prevState := a.aclState
 	a.setState(copyState)
 	a.records = append(a.records, record)
 	a.indexes[record.Id] = len(a.records) - 1
@@ -279,7 +280,15 @@ func (a *aclList) AddRawRecord(rawRec *consensusproto.RawRecordWithId) (err erro
 		Order:      len(a.records),
 		ChangeSize: len(rawRec.Payload),
 	}
-	return a.storage.AddAll(context.Background(), []StorageRecord{storageRec})
+	err = a.storage.AddAll(context.Background(), []StorageRecord{storageRec})
+	if err != nil {
+		// the record was not stored: keep describing what the storage holds,
+		// so that the same record can be added again
+		a.records = a.records[:len(a.records)-1]
+		delete(a.indexes, record.Id)
+		a.setState(prevState)
+	}
+	return
 }
 
 func (a *aclList) setState(state *AclState) {
